@@ -6,6 +6,7 @@ import (
 	"encoding/json"
 	"fmt"
 	"strings"
+	"time"
 
 	"github.com/corazawaf/coraza/v3/internal/verif/runner"
 	"github.com/corazawaf/coraza/v3/internal/verif/scen"
@@ -287,6 +288,7 @@ func run(c *runner.Ctx) {
 			return
 		}
 		conf := p.conf()
+		defer c.Watch("program", kase{Prog: p}, 3*time.Minute)()
 		w, err := scen.Build(conf)
 		if err != nil {
 			c.Violation("build:"+err.Error(), "generated configuration rejected: "+err.Error()+"\n"+conf, kase{Prog: p})
